@@ -84,8 +84,18 @@ def run_cond(ops):
         mark = [0]
 
         def do_op(i, o):
+            try:
+                do_op1(i, o)
+            except Exception as e:          # no Condition operation may raise
+                results[i] = Tag("raised-" + type(e).__name__)
+
+        def do_op1(i, o):
             if o[0] == "W":
-                f = cond.wait(dl[i] if o[1] else None)
+                tv, restore = E.make_timeout(i, o, dl)
+                try:
+                    f = cond.wait(tv)
+                finally:
+                    restore()
                 futs.append(f)
                 results[i] = Tag("waiting")
             elif o[0] == "N":
@@ -103,7 +113,7 @@ def run_cond(ops):
             for w in new:
                 log.append([w, Tag(cstate(futs[w]))])
             o = ops[i]
-            if o[0] in ("N", "NA"):
+            if o[0] in ("N", "NA") and results[i] is None:
                 assert all(cstate(futs[w]) == "true" for w in new)
                 results[i] = [Tag("woke"), new]
             elif o[0] == "F":
@@ -132,9 +142,19 @@ def run_event(ops):
         snaps = [None] * len(ops)
 
         def do_op(i, o):
+            try:
+                do_op1(i, o)
+            except Exception as e:          # no Event operation may raise
+                results[i] = Tag("raised-" + type(e).__name__)
+
+        def do_op1(i, o):
             if o[0] == "W":
                 before = set(ev._waiters)
-                f = ev.wait(dl[i] if o[1] else None)
+                tv, restore = E.make_timeout(i, o, dl)
+                try:
+                    f = ev.wait(tv)
+                finally:
+                    restore()
                 new = set(ev._waiters) - before
                 assert len(new) <= 1
                 rets.append(f)
@@ -176,12 +196,12 @@ def run_impl(case):
 # Gallina rendering
 # ----------------------------------------------------------------------------
 def gop_c(o):
-    return {"W": lambda: "CWait %s" % G.gbool(bool(o[1])), "N": lambda: "CNotify %s" % G.gz(o[1]), "NA": lambda: "CNotifyAll",
+    return {"W": lambda: "CWait %s" % E.TMO[o[1]], "N": lambda: "CNotify %s" % G.gz(o[1]), "NA": lambda: "CNotifyAll",
             "F": lambda: "CFire %d" % o[1], "C": lambda: "CCancel %d" % o[1], "D": lambda: "CDrain"}[o[0]]()
 
 
 def gop_e(o):
-    return {"W": lambda: "EWait %s" % G.gbool(bool(o[1])), "S": lambda: "ESet", "CL": lambda: "EClear",
+    return {"W": lambda: "EWait %s" % E.TMO[o[1]], "S": lambda: "ESet", "CL": lambda: "EClear",
             "F": lambda: "EFire %d" % o[1], "C": lambda: "ECancel %d" % o[1], "D": lambda: "EDrain"}[o[0]]()
 
 
@@ -321,6 +341,14 @@ def corpus_cases():
         mk("cond", [["W", 1], ["W", 1], ["D"], ["N", 1], ["F", 0], ["F", 1], ["N", 1]]),      # timer fires after notify, same iteration
         mk("cond", [["W", 0], ["W", 0], ["W", 0], ["C", 1], ["N", 2], ["W", 0], ["NA"]]),
         mk("cond", [["W", 0], ["W", 0], ["N", -1], ["W", 0], ["N", 0]]),
+        # zero timeouts are deadlines (seeded change C34_2): B must resolve False, notify(2) wakes A and C
+        mk("cond", [["W", 0], ["W", 5], ["W", 0], ["D"], ["N", 2]]),
+        mk("cond", [["W", 0], ["W", 3], ["W", 4], ["W", 0], ["W", 0], ["D"], ["N", 2], ["N", 1]]),
+        mk("event", [["W", 3], ["W", 5], ["W", 4], ["W", 0], ["D"], ["S"], ["D"], ["D"]]),
+        mk("event", [["W", 5], ["S"], ["D"], ["D"]]),
+        # set / clear / set inside one iteration: the second set() meets futures that are done but still in _waiters
+        mk("event", [["W", 0], ["W", 1], ["S"], ["CL"], ["S"], ["D"], ["D"]]),
+        mk("event", [["W", 1], ["D"], ["F", 0], ["S"], ["CL"], ["W", 0], ["S"], ["D"], ["D"]]),
         mk("cond", gc),
         mk("event", [["W", 0], ["W", 1], ["S"], ["D"], ["D"], ["W", 0], ["CL"], ["W", 1], ["D"], ["F", 3], ["D"], ["D"]]),
         mk("event", [["W", 1], ["D"], ["S"], ["F", 0], ["D"], ["D"]]),                     # set, then the timer in the same iteration: TimeoutError
@@ -336,7 +364,7 @@ def random_cond(rng, n):
     for _ in range(n):
         x = rng.random()
         if x < 0.34 or nw == 0 and x < 0.6:
-            ops.append(["W", 1 if rng.random() < 0.6 else 0])
+            ops.append(["W", rng.choice(E.TMO_MIX)])
             nw += 1
         elif x < 0.50:
             ops.append(["N", rng.choice([1, 1, 1, 2, 3, 0, -1, 5])])
@@ -356,10 +384,12 @@ def random_event(rng, n):
     for _ in range(n):
         x = rng.random()
         if x < 0.28 or nw == 0 and x < 0.5:
-            ops.append(["W", 1 if rng.random() < 0.65 else 0])
+            ops.append(["W", rng.choice(E.TMO_MIX)])
             nw += 1
-        elif x < 0.40:
+        elif x < 0.37:
             ops.append(["S"])
+        elif x < 0.41:
+            ops += [["S"], ["CL"], ["S"]][: rng.randrange(2, 4)]      # set/clear(/set) without an iteration boundary
         elif x < 0.48:
             ops.append(["CL"])
         elif x < 0.64:
@@ -372,21 +402,7 @@ def random_event(rng, n):
 
 
 def enum(n, max_w, base):
-    def rec(prefix, nw, left):
-        if left == 0:
-            yield list(prefix)
-            return
-        alph = list(base) + [["D"]]
-        if nw < max_w:
-            alph += [["W", 0], ["W", 1]]
-        for w in range(nw):
-            alph += [["F", w], ["C", w]]
-        for o in alph:
-            prefix.append(o)
-            if o[0] != "F" or E.well_formed(prefix, _creates):
-                yield from rec(prefix, nw + (1 if o[0] == "W" else 0), left - 1)
-            prefix.pop()
-    yield from rec([], 0, n)
+    return E.enum_norm(n, max_w, base, "W", _creates)
 
 
 COND_BASE = [["N", 1], ["N", 2], ["NA"]]
@@ -408,9 +424,8 @@ def gen_cases(rng, tier):
             out.append(mk("event", random_event(rng, rng.randrange(14, 24))))
     else:
         for n in range(0, 5):
-            out += [mk("cond", ops) for ops in enum(n, 3, COND_BASE)]
+            out += [mk("cond", ops) for ops in enum(n, 3 if n < 4 else 2, COND_BASE)]
             out += [mk("event", ops) for ops in enum(n, 3, EVENT_BASE)]
-        out += [mk("event", ops) for ops in enum(5, 2, EVENT_BASE)]
         for _ in range(1500):
             out.append(mk("cond", random_cond(rng, rng.randrange(5, 13))))
         for _ in range(2500):
@@ -493,6 +508,7 @@ ASSUMPTIONS = [
     "a timer never fires in the loop iteration that created it (asyncio collects due timers before running callbacks); the generator only emits such schedules, the theorems hold for all op lists",
     "'before its deadline' is read at loop-iteration granularity: the deadline passes when the loop collects the timer, i.e. at the iteration boundary preceding the timer callback (a set() later in that same iteration comes after the deadline by the clock)",
     "notify(n) theorems about min(n, live) are for n >= 0; the code treats a negative n as notify_all (modelled and checked)",
+    "timeouts are exercised as None, absolute float, timedelta, 0, 0.0 and timedelta(0); a zero timeout is due at once and its timer runs in the next loop iteration",
 ]
 RULE = ("op lists over {wait timed/untimed, notify n, notify_all | set, clear, fire timer w, cancel w, drain}: exhaustive for tiny lengths, random lengths 4-40, "
         "long Condition cases that trigger _garbage_collect; distinct by (object, ops)")
@@ -503,7 +519,5 @@ LEVEL_TEXT = ("Machine-checked (Coq) theorems over all operation lists: Conditio
               "one iteration unless its timer fires first, a fired timer gives TimeoutError, and at quiescence _waiters holds only genuinely pending waits.  The model is compared "
               "with the real classes on the real asyncio loop under a virtual clock on every generated schedule.")
 LEVEL_NOTE = ("Trusted: Coq kernel/vm_compute; the schedule-driving harness; the abstraction of asyncio futures and callbacks. "
-              "Partial: the lemma that the model's observable always passes the checker is proved for Condition cases only "
-              "(C34_model_passes_checker_partial); for Event cases the checker is evaluated on every case but not proved sound on the model. "
               "Deadlines are read at loop-iteration granularity (coq/C34/NOTES.md).")
 TECHNIQUE = "Coq proof (refinement for Condition, inductive invariants + step lemmas for Event) + differential correspondence of traces via vm_compute"
